@@ -271,6 +271,7 @@ theorem bal_cmd (fuel : Nat) (ih : Bal fuel) : ∀ s c, (execCmd (fuel+1) s c).1
   | trapExit body => simp [execCmd]
   | trapSig body => simp [execCmd]
   | raise n => simp [execCmd]
+  | raiseErr => simp [execCmd]
   | group body => simp [execCmd, ih.list]
   | subshell body =>
     simp only [execCmd]
